@@ -78,6 +78,88 @@ Proof.
       * constructor; [|exact Hfrom']. exists e. split; [left; reflexivity|]. split; [reflexivity|]. cbn [snd]. exact Hb.
 Qed.
 
+(* ---- the extension block, exactly: the (type, body) pairs of the list in order, the padding extension in the state
+        Update left it in ---- *)
+Definition wpair (e : ext) : option (N * bytes) := if ext_absent e then None else Some (ext_id e, ext_body e).
+Definition wlist (es : list ext) : list (N * bytes) :=
+  flat_map (fun e => match wpair e with Some w => [w] | None => [] end) es.
+Definition setpad (l : N) (w : bool) (e : ext) : ext := match e with EPadding _ _ pol => EPadding l w pol | _ => e end.
+
+Definition padded (e e' : ext) : Prop := if is_padding e then exists pl pw, e' = setpad pl pw e else e' = e.
+
+Lemma wlist_cons e es : wlist (e :: es) = wlist [e] ++ wlist es.
+Proof. unfold wlist. cbn [flat_map]. rewrite app_nil_r. reflexivity. Qed.
+
+Lemma elem_out padto e x o : wf_ext e = true -> rel padto e x -> emits x o -> len o < 65536 ->
+  exists e', padded e e' /\ o = flat_map enc_ext (wlist [e']) /\ Forall present_ok (wlist [e']).
+Proof.
+  intros Hw Hr Ho Hlen. unfold rel, padded in *. destruct (is_padding e) eqn:Hp.
+  - destruct Hr as (pol & st & ->). cbn [emits] in Ho. subst o. destruct e; try discriminate.
+    exists (EPadding (p_len st) (p_will st) policy). split; [exists (p_len st), (p_will st); reflexivity|].
+    assert (Hpl : pad_len st < 65536) by (rewrite <- len_pad_emit; lia).
+    rewrite (pad_emit_wire st Hpl). unfold wlist, wpair. cbn [flat_map ext_absent ext_id ext_body app].
+    destruct (p_will st) eqn:Hw'; cbn [negb flat_map app]; [|split; [reflexivity|constructor]].
+    rewrite app_nil_r. split; [reflexivity|]. constructor; [|constructor].
+    unfold present_ok, pad_len in *. cbn [fst snd]. rewrite Hw' in Hpl. rewrite blen_zbytes, N2Nat.id. unfold ID_PADDING. lia.
+  - subst x. exists e. split; [reflexivity|].
+    pose proof (emits_wire padto e Hw Hp) as Hw2. rewrite (to_aext_nonpad padto e Hp) in Ho, Hw2.
+    cbn [emits] in Ho, Hw2. destruct Ho as [_ Hrd]. destruct Hw2 as [_ Hrd2].
+    assert (Heq : o = ChMarshalP.wire_of e).
+    { specialize (Hrd (zeros (ext_len e))). specialize (Hrd2 (zeros (ext_len e))).
+      rewrite len_zeros in Hrd, Hrd2. specialize (Hrd (N.le_refl _)). specialize (Hrd2 (N.le_refl _)).
+      rewrite Hrd in Hrd2. inversion Hrd2. reflexivity. }
+    subst o. unfold ChMarshalP.wire_of, wlist, wpair. cbn [flat_map]. destruct (ext_absent e) eqn:Habs; cbn [app flat_map].
+    + split; [reflexivity|constructor].
+    + rewrite app_nil_r. split; [reflexivity|]. constructor; [|constructor].
+      destruct (wf_parts e Hw) as (_ & Hf & Hl). unfold present_ok. cbn [fst snd]. split; [apply ext_id_u16; exact Hf|].
+      pose proof (body_len e Hw Habs). lia.
+Qed.
+
+Lemma block_exact padto es : forall xs outs,
+  Forall (fun e => wf_ext e = true /\ rfc_ok e = true) es ->
+  Forall2 (rel padto) es xs -> Forall2 emits xs outs -> len (concat outs) < 65536 ->
+  exists es', Forall2 padded es es' /\ concat outs = flat_map enc_ext (wlist es') /\ Forall present_ok (wlist es').
+Proof.
+  induction es as [|e es IH]; intros xs outs Hwf Hrel Hem Hlen.
+  - inversion Hrel; subst. inversion Hem; subst. exists []. repeat split; constructor.
+  - inversion Hrel as [|? x ? xs' Hr Hrel']; subst. inversion Hem as [|? o ? outs' Ho Hem']; subst.
+    inversion Hwf as [|? ? [Hw Hrfc] Hwf']; subst.
+    cbn [concat] in Hlen. rewrite len_app in Hlen.
+    destruct (IH xs' outs' Hwf' Hrel' Hem') as (es' & Hp & Hcat & Hok); [lia|].
+    destruct (elem_out padto e x o Hw Hr Ho) as (e' & Hpe & Ho' & Hoke); [lia|].
+    exists (e' :: es'). split; [constructor; assumption|]. rewrite wlist_cons. cbn [concat]. rewrite flat_map_app, Hcat, Ho'.
+    split; [reflexivity|]. apply Forall_app. split; assumption.
+Qed.
+
+Lemma setpad_nopad l w e : is_padding e = false -> setpad l w e = e.
+Proof. destruct e; try reflexivity. discriminate. Qed.
+
+(* at most one padding extension (extension types pairwise distinct): one padding state describes the whole list *)
+Lemma padded_map es : forall es', NoDup (map ext_id es) -> Forall2 padded es es' -> exists pl pw, es' = map (setpad pl pw) es.
+Proof.
+  induction es as [|e es IH]; intros es' Hnd H; inversion H as [|? e' ? es'' He Hes]; subst.
+  - exists 0, false. reflexivity.
+  - cbn [map] in Hnd. inversion Hnd as [|? ? Hn Hnd']; subst. unfold padded in He. destruct (is_padding e) eqn:Hp.
+    + destruct He as (pl & pw & ->). exists pl, pw. cbn [map]. f_equal.
+      assert (Hnp : Forall (fun x => is_padding x = false) es).
+      { apply Forall_forall. intros x Hx. destruct (is_padding x) eqn:Hpx; [|reflexivity]. exfalso. apply Hn.
+        destruct e; try discriminate. destruct x; try discriminate. cbn [ext_id]. apply in_map_iff. eexists; split; [|exact Hx]. reflexivity. }
+      clear - Hes Hnp. revert es'' Hes. induction es as [|x es IH]; intros es'' Hes; inversion Hes as [|? x' ? es3 Hx Hr]; subst; [reflexivity|].
+      inversion Hnp as [|? ? Hx0 Hnp']; subst. unfold padded in Hx. rewrite Hx0 in Hx. subst x'. cbn [map].
+      rewrite (setpad_nopad pl pw x Hx0). f_equal. apply IH; assumption.
+    + subst e'. destruct (IH es'' Hnd' Hes) as (pl & pw & ->). exists pl, pw. cbn [map]. rewrite (setpad_nopad pl pw e Hp). reflexivity.
+Qed.
+
+(* the encoding of an extension block determines the (type, body) list *)
+Lemma enc_ext_inj p1 p2 : Forall present_ok p1 -> Forall present_ok p2 -> flat_map enc_ext p1 = flat_map enc_ext p2 -> p1 = p2.
+Proof.
+  intros H1 H2 He.
+  assert (Hp : forall p, Forall present_ok p -> items ext_item (length (flat_map enc_ext p)) (flat_map enc_ext p) = Some p).
+  { intros p Hp. rewrite (items_flat enc_ext ext_item (fun x => x) present_ok ext_item_enc); [rewrite map_id; reflexivity| |exact Hp|apply le_n].
+    intros x _. unfold enc_ext, enc_u16. discriminate. }
+  pose proof (Hp p1 H1) as A. pose proof (Hp p2 H2) as B. rewrite He in A. rewrite A in B. inversion B. reflexivity.
+Qed.
+
 Definition mk_ast (h : hello_hdr) (es : list ext) (present : list (N * bytes)) : ch_ast :=
   {| c_vers := h_vers h; c_random := h_random h; c_sid := h_sid h; c_suites := h_suites h;
      c_comp := h_comp h; c_has_exts := nonempty es; c_exts := present |}.
@@ -88,7 +170,8 @@ Lemma marshal_shape bbs padto h es raw : wf_specb h es = true -> marshal_hello b
     raw = hello_layout (mk_ast h es present) /\ ast_ok (mk_ast h es present)
     /\ NoDup (map fst present)
     /\ (forall e, In e es -> is_padding e = false -> ext_absent e = false -> In (ext_id e, ext_body e) present)
-    /\ Forall (from_spec es) present.
+    /\ Forall (from_spec es) present
+    /\ (exists pl pw, present = wlist (map (setpad pl pw) es)).
 Proof.
   intros Hwf Hraw. destruct (ok_has_length bbs padto h es raw Hraw) as (p & Hp & Hfit & _).
   destruct (wf_spec_parts h es Hwf) as (Hv & Hr & Hsid & Hsne & Hsu & Hcne & Hall & Hnd & Hpsk).
@@ -108,7 +191,12 @@ Proof.
   assert (Hhas : match aes with [] => [] | _ :: _ => u16be (u16 (len eb)) ++ eb end
                  = if nonempty es then u16be (u16 (len eb)) ++ eb else []).
   { unfold aes. destruct es; reflexivity. }
-  split; [|split; [|split; [|split; [exact Hin | exact Hfrom]]]].
+  assert (Hexact : exists pl pw, present = wlist (map (setpad pl pw) es)).
+  { destruct (block_exact padto es (pr_exts p) outs Hall (prepare_rel padto h es p Hp) Hem) as (es' & Hpad & Hcat' & Hok');
+      [rewrite <- Heb; exact Heblen|].
+    destruct (padded_map es es' Hnd Hpad) as (pl & pw & ->). exists pl, pw.
+    apply enc_ext_inj; [exact Hpok | exact Hok' | rewrite <- Hpres, <- Hcat'; reflexivity]. }
+  split; [|split; [|split; [|split; [exact Hin | split; [exact Hfrom | exact Hexact]]]]].
   - unfold marshal_hello in Hraw. fold aes in Hraw. rewrite Hp in Hraw. cbn [bind] in Hraw. rewrite Hfit0 in Hraw. cbn [negb] in Hraw.
     rewrite Hm in Hraw. inversion Hraw as [Hr']. rewrite Hhas in Hbody. rewrite Hbody.
     apply (layout_eq h (nonempty es) present eb); [rewrite Heb; exact Hpres | exact Heblen | exact Hs2].
@@ -131,9 +219,10 @@ Lemma wire_of_marshal bbs padto h es raw : wf_specb h es = true -> marshal_hello
     /\ wire_of raw = Some (wire_of_ast (mk_ast h es present))
     /\ NoDup (map fst present)
     /\ (forall e, In e es -> is_padding e = false -> ext_absent e = false -> In (ext_id e, ext_body e) present)
-    /\ Forall (from_spec es) present.
+    /\ Forall (from_spec es) present
+    /\ (exists pl pw, present = wlist (map (setpad pl pw) es)).
 Proof.
-  intros Hwf Hraw. destruct (marshal_shape bbs padto h es raw Hwf Hraw) as (present & -> & Hok & Hnd & Hin & Hfrom).
+  intros Hwf Hraw. destruct (marshal_shape bbs padto h es raw Hwf Hraw) as (present & -> & Hok & Hnd & Hin & Hfrom & Hex).
   exists present. pose proof (strict_parse_layout _ Hok) as Hsp.
   split; [exact Hsp|]. split; [unfold wire_of; rewrite Hsp; reflexivity|]. auto.
 Qed.
@@ -446,7 +535,7 @@ Section Compose.
              /\ us_versions sf = filter (fun x => x <=? h_vers (us_hdr s)) (Negotiate.client_versions v)
              /\ us_versions sf <> []).
   Proof.
-    destruct (wire_of_marshal bbs padto (us_hdr s) es raw Hwf Hraw) as (present & _ & Hw & Hndp & Hfwd & Hrev).
+    destruct (wire_of_marshal bbs padto (us_hdr s) es raw Hwf Hraw) as (present & _ & Hw & Hndp & Hfwd & Hrev & _).
     destruct (wf_spec_parts _ _ Hwf) as (_ & _ & _ & _ & _ & _ & Hall & Hnd & _).
     destruct (apply_config_fields _ _ _ _ _ Hcfg) as (C & A1 & A2 & A3 & A4 & A5 & _).
     destruct (finish_same load es s') as (F0 & F1 & F2 & F3 & F4 & F5 & F6 & F7 & F8). fold sf in F0, F1, F2, F3, F4, F5, F6, F7, F8.
